@@ -24,6 +24,7 @@ type FuncFacts struct {
 	busy  map[*ssa.BasicBlock]bool
 	pdom  map[*ssa.BasicBlock]map[*ssa.BasicBlock]bool // pdom[a][b]: b post-dominates a
 	reach map[*ssa.BasicBlock]map[*ssa.BasicBlock]bool
+	mp    map[[2]ssa.Instruction]bool
 }
 
 func (p *Prog) Facts(fn *ssa.Function) *FuncFacts {
@@ -109,12 +110,25 @@ func (ff *FuncFacts) NC(b *ssa.BasicBlock) []Fact {
 	// constants (A.1).
 	for i := 0; i < len(out); i++ {
 		f := out[i]
-		phi, ok := f.Cond.(*ssa.Phi)
-		if !ok {
-			continue
-		}
-		edges, ok := flagEdges(phi, f.Pol, map[*ssa.Phi]bool{})
-		if !ok || len(edges) == 0 {
+		var edges [][2]*ssa.BasicBlock
+		if phi, ok := f.Cond.(*ssa.Phi); ok {
+			edges, ok = flagEdges(phi, f.Pol, map[*ssa.Phi]bool{})
+			if !ok || len(edges) == 0 {
+				continue
+			}
+		} else if x, isNil, ok := FactNilCmp(f); ok {
+			// a nil test of a phi (an error merged from several exits, e.g. of an
+			// inlined helper): only the incoming edges whose value can have that
+			// nil-ness are consistent with the fact
+			phi, isPhi := x.(*ssa.Phi)
+			if !isPhi {
+				continue
+			}
+			edges, ok = ff.nilEdges(phi, isNil, map[*ssa.Phi]bool{})
+			if !ok || len(edges) == 0 {
+				continue
+			}
+		} else {
 			continue
 		}
 		var inter []Fact
@@ -174,6 +188,54 @@ func flagEdges(phi *ssa.Phi, want bool, seen map[*ssa.Phi]bool) ([][2]*ssa.Basic
 			out = append(out, sub...)
 		default:
 			return nil, false
+		}
+	}
+	return out, true
+}
+
+// nilEdges returns the CFG edges into phi's web whose value may be nil
+// (wantNil) / may be non-nil (!wantNil).  An edge value is known nil if it is
+// the nil constant, known non-nil if the path to the edge tests it != nil;
+// anything else may be either.
+func (ff *FuncFacts) nilEdges(phi *ssa.Phi, wantNil bool, seen map[*ssa.Phi]bool) ([][2]*ssa.BasicBlock, bool) {
+	if seen[phi] {
+		return nil, true
+	}
+	seen[phi] = true
+	var out [][2]*ssa.BasicBlock
+	for i, e := range phi.Edges {
+		pred := phi.Block().Preds[i]
+		if sub, isPhi := e.(*ssa.Phi); isPhi {
+			es, ok := ff.nilEdges(sub, wantNil, seen)
+			if !ok {
+				return nil, false
+			}
+			out = append(out, es...)
+			continue
+		}
+		state := 0 // unknown
+		if isNilConst(e) {
+			state = 1
+		} else {
+			fs := append([]Fact{}, ff.NC(pred)...)
+			if ef, ok := edgeFact(pred, phi.Block()); ok {
+				fs = append(fs, ef)
+			}
+			for _, g := range fs {
+				if y, yNil, ok := FactNilCmp(g); ok && unspill(y) == unspill(e) {
+					if yNil {
+						state = 1
+					} else {
+						state = 2
+					}
+				}
+			}
+			if _, isMI := e.(*ssa.MakeInterface); isMI {
+				state = 2 // a concrete value boxed into the interface is not nil
+			}
+		}
+		if state == 0 || (state == 1) == wantNil {
+			out = append(out, [2]*ssa.BasicBlock{pred, phi.Block()})
 		}
 	}
 	return out, true
@@ -590,7 +652,182 @@ func instrDominates(a, b ssa.Instruction) bool {
 		}
 		return false
 	}
-	return ab.Dominates(bb)
+	if ab.Dominates(bb) {
+		return true
+	}
+	// not a dominator: a may still lie on every FEASIBLE path to b (merged
+	// control flow whose arms are told apart by a flag or by the nil-ness of a
+	// merged error, as after inlining a helper)
+	if activeProg != nil && ab.Parent() != nil {
+		return activeProg.Facts(ab.Parent()).mustPass(a, b, nil)
+	}
+	return false
+}
+
+// activeProg is the program under analysis (set by NewCtx); instrDominates
+// uses its facts for the path-feasibility argument.
+var activeProg *Prog
+
+// webEdgesOf: the edges consistent with fact f when f tests a phi (a bool
+// flag, or the nil-ness of a merged value); ok=false if f is not such a fact.
+func (ff *FuncFacts) webEdgesOf(f Fact) ([][2]*ssa.BasicBlock, bool) {
+	if phi, ok := f.Cond.(*ssa.Phi); ok {
+		es, ok := flagEdges(phi, f.Pol, map[*ssa.Phi]bool{})
+		return es, ok
+	}
+	if x, isNil, ok := FactNilCmp(f); ok {
+		if phi, isPhi := x.(*ssa.Phi); isPhi {
+			return ff.nilEdges(phi, isNil, map[*ssa.Phi]bool{})
+		}
+	}
+	return nil, false
+}
+
+// mustPass: every feasible path from the entry to b executes a first.  Paths
+// are over-approximated: all CFG paths, or — for one fact known at b (or given
+// in extra) that tests a phi — the paths whose last entry into the phi's block
+// is an edge consistent with the fact.
+func (ff *FuncFacts) mustPass(a, b ssa.Instruction, extra []Fact) bool {
+	ab, bb := a.Block(), b.Block()
+	fn := ab.Parent()
+	if len(fn.Blocks) == 0 || ab == bb {
+		return false
+	}
+	key := [2]ssa.Instruction{a, b}
+	if extra == nil {
+		if r, ok := ff.mp[key]; ok {
+			return r
+		}
+	}
+	// reach(from → to) avoiding ab and, optionally, never entering `never`
+	reach := func(from, to, never *ssa.BasicBlock) bool {
+		seen := map[*ssa.BasicBlock]bool{}
+		var walk func(x *ssa.BasicBlock) bool
+		walk = func(x *ssa.BasicBlock) bool {
+			if x == ab || seen[x] {
+				return false
+			}
+			seen[x] = true
+			if x == to {
+				return true
+			}
+			for _, s := range x.Succs {
+				if s == never {
+					continue
+				}
+				if walk(s) {
+					return true
+				}
+			}
+			return false
+		}
+		return walk(from)
+	}
+	res := false
+	if !reach(fn.Blocks[0], bb, nil) {
+		res = true
+	} else {
+		facts := append(append([]Fact{}, ff.NC(bb)...), extra...)
+		for _, f := range facts {
+			edges, ok := ff.webEdgesOf(f)
+			if !ok {
+				continue
+			}
+			feasible := false
+			for _, e := range edges {
+				if e[0] == ab || e[1] == ab {
+					continue
+				}
+				if !reach(fn.Blocks[0], e[0], nil) {
+					continue
+				}
+				if e[1] == bb || reach(e[1], bb, e[1]) {
+					feasible = true
+					break
+				}
+			}
+			if !feasible {
+				res = true
+				break
+			}
+		}
+	}
+	if extra == nil {
+		if ff.mp == nil {
+			ff.mp = map[[2]ssa.Instruction]bool{}
+		}
+		ff.mp[key] = res
+	}
+	return res
+}
+
+// DominatesSuccess: a lies on every feasible path on which return r reports
+// success (its error result is nil).
+func (ff *FuncFacts) DominatesSuccess(a ssa.Instruction, r *ssa.Return) bool {
+	if instrDominates(a, r) {
+		return true
+	}
+	idx := errResultIndex(ff.fn)
+	if idx < 0 || idx >= len(r.Results) || a.Block() == r.Block() {
+		return false
+	}
+	if phi, ok := r.Results[idx].(*ssa.Phi); ok {
+		// virtual fact: the returned error is nil
+		nilC := ssa.NewConst(nil, phi.Type())
+		cmp := &ssa.BinOp{Op: token.EQL, X: phi, Y: nilC}
+		return ff.mustPass(a, r, []Fact{{Cond: cmp, Pol: true}})
+	}
+	return false
+}
+
+// SuccessNC: the necessary conditions of return r reporting success.
+func (ff *FuncFacts) SuccessNC(r *ssa.Return) []Fact {
+	out := append([]Fact{}, ff.NC(r.Block())...)
+	idx := errResultIndex(ff.fn)
+	if idx < 0 || idx >= len(r.Results) {
+		return out
+	}
+	phi, ok := r.Results[idx].(*ssa.Phi)
+	if !ok {
+		return out
+	}
+	edges, ok := ff.nilEdges(phi, true, map[*ssa.Phi]bool{})
+	if !ok || len(edges) == 0 {
+		return out
+	}
+	var inter []Fact
+	for k, e := range edges {
+		fs := append([]Fact{}, ff.NC(e[0])...)
+		if ef, ok := edgeFact(e[0], e[1]); ok {
+			fs = append(fs, ef)
+		}
+		if k == 0 {
+			inter = fs
+			continue
+		}
+		var keep []Fact
+		for _, x := range inter {
+			for _, y := range fs {
+				if x == y {
+					keep = append(keep, x)
+					break
+				}
+			}
+		}
+		inter = keep
+	}
+	for _, x := range inter {
+		dup := false
+		for _, y := range out {
+			if x == y {
+				dup = true
+			}
+		}
+		if !dup {
+			out = append(out, x)
+		}
+	}
+	return out
 }
 
 // ---- CFG utilities --------------------------------------------------------
